@@ -16,8 +16,16 @@ def main():
         numpy.random.seed(0)
     except Exception:
         pass
-    import scenic
     import c06_rt as rt
+    if req.get("kind") == "merge":
+        try:
+            out = rt.merge_cases(req.get("hiers", []))
+        except Exception as e:  # noqa
+            import traceback
+            out = dict(crash=f"{type(e).__name__}: {e}", tb=traceback.format_exc()[-1500:])
+        sys.stdout.write("\n" + json.dumps(out) + "\n")
+        return
+    import scenic
     import c06_catalog as cat
 
     rt.INST.clear()
